@@ -290,6 +290,7 @@ class Loop:
         self.filters = []           # comprehension conditions
         self.ckind = None           # comprehension kind list/gen/set
         self.inner = []             # nested loop ids
+        self.tgt_terms = {}         # loop target name -> term over the element
 
     def __repr__(self):
         return "<Loop %s %s over %s>" % (self.id, self.kind, show(self.source))
@@ -562,6 +563,7 @@ class SymX:
         body.env["$broke"] = FALSE
         body.snaps = []
         self._bind_loop_target(s.target, loop, body, f, depth)
+        loop.tgt_terms = {n: body.env[n] for n in tgt_names if n in body.env}
         nested_before = set(self.loops)
         after = self.block(s.body, body, f, depth)
         loop.inner = [i for i in self.loops if i not in nested_before]
@@ -623,6 +625,12 @@ class SymX:
         return st
 
     def comprehension(self, e, st, f, depth):
+        if len(e.generators) == 2 and isinstance(e, ast.ListComp):
+            g1, g2 = e.generators
+            if isinstance(g1.target, ast.Name) and isinstance(g2.iter, ast.Name) and g2.iter.id == g1.target.id \
+                    and isinstance(g2.target, ast.Name) and isinstance(e.elt, ast.Name) and e.elt.id == g2.target.id \
+                    and not g1.ifs and not g2.ifs:
+                return ("flatten", self.expr(g1.iter, st, f, depth))
         if len(e.generators) != 1:
             raise Unsupported("nested comprehension generators")
         gen = e.generators[0]
@@ -655,9 +663,22 @@ class SymX:
             return mk_and(*parts) if t[1] == "and" else mk_or(*parts)
         return ("truthy", t)
 
+    def _listy(self, t, depth=0):
+        if t[0] in ("list", "cat", "compr", "flatten", "repeat"):
+            return True
+        if t[0] == "res" and depth < 6 and t[1] in self.loops:
+            init = self.loops[t[1]].init.get(t[2])
+            if init is not None:
+                return self._listy(init, depth + 1)
+        if t[0] == "acc" and depth < 6 and t[1] in self.loops:
+            init = self.loops[t[1]].init.get(t[2])
+            if init is not None:
+                return self._listy(init, depth + 1)
+        return False
+
     def binop(self, op, a, b):
         if isinstance(op, ast.Add):
-            if a[0] in ("list", "cat", "compr") or b[0] in ("list", "cat", "compr"):
+            if self._listy(a) or self._listy(b):
                 return simp(("cat", a, b))
             if is_const(a) and is_const(b):
                 try:
@@ -670,8 +691,14 @@ class SymX:
         if isinstance(op, ast.Sub):
             return mk_add(a, negate(b))
         if isinstance(op, ast.Mult):
-            if a[0] == "list" or b[0] == "list":
+            if a[0] == "repeat":
+                return ("repeat", a[1], mk_mul(a[2], b))
+            if b[0] == "repeat":
+                return ("repeat", b[1], mk_mul(b[2], a))
+            if a[0] == "list":
                 return ("repeat", a, b)
+            if b[0] == "list":
+                return ("repeat", b, a)
             return mk_mul(a, b)
         if isinstance(op, ast.Div):
             if is_const(a) and is_const(b):
